@@ -51,6 +51,11 @@ Definition alpha_char (d : N) : byte := nth (N.to_nat d) b58_alphabet x00.
 (* the b58 table: Some d where the table holds d, None where it holds 255 *)
 Definition alpha_idx (c : byte) : option N := option_map N.of_nat (index_byte c b58_alphabet).
 
+(* Encode/Decode translate leading zero bytes to/from the character alphabetIdx0; the model
+   translates them to/from the digit 0.  The two agree because alphabetIdx0 = alphabet[0]. *)
+Example alphabet_idx0_is_digit_0 : alpha_idx (byte_of_N_trunc b58_alphabet_idx0) = Some 0.
+Proof. reflexivity. Qed.
+
 (* ---------- Encode ---------- *)
 Definition b58_encode (bs : bytes) : option bytes :=
   option_map (map alpha_char) (conv b58_table_len b58_radix (map byte_N bs)).
